@@ -30,10 +30,12 @@ def big_arrays(c, only=None):
     cases = []
     # designed cases: every operation at a size above 2^16 with processor counts that do not divide it, on the layout pairs
     # that select each code path (both contiguous -> flat fast paths; non-contiguous destination or source -> index loops / gathers)
-    designed = [('COPYFROM', 3, 'gap', 'full', 3, 21847), ('COPYFROM', 2, 'full', 'step', 1, 65537), ('APPLYSLICE', 7, 'rows', 'gap', 257, 257),
-                ('APPLYSLICE', 3, 'step', 'rows', 11, 9091), ('SCALE', 3, 'full', 'full', 1, 65537), ('ADDTO', 7, 'full', 'full', 3, 21847),
-                ('APPLYFUNC', 3, 'full', 'full', 13, 7699), ('SCALE', 2, 'gap', 'full', 5, 6554), ('UNROLL', 3, 'full', 'step', 9, 14565),
-                ('RESHAPE', 7, 'full', 'gap', 3, 10923), ('MAX', 3, 'full', 'rows', 7, 9363), ('MIN', 2, 'full', 'full', 1, 100003)]
+    # every element count below is coprime to 2, 3 and 7 (a remainder is left whatever the processor count)
+    designed = [('COPYFROM', 3, 'gap', 'full', 5, 13109), ('COPYFROM', 2, 'full', 'step', 1, 65537), ('APPLYSLICE', 7, 'rows', 'gap', 257, 257),
+                ('APPLYSLICE', 3, 'step', 'rows', 11, 9091), ('SCALE', 3, 'full', 'full', 1, 65537), ('ADDTO', 7, 'full', 'full', 5, 13109),
+                ('ADDTO', 2, 'full', 'full', 1, 100003), ('APPLYFUNC', 3, 'full', 'full', 13, 7699), ('SCALE', 2, 'gap', 'full', 5, 6553),
+                ('UNROLL', 3, 'full', 'step', 25, 2633), ('RESHAPE', 7, 'full', 'gap', 5, 6553), ('MAX', 3, 'full', 'rows', 11, 9091),
+                ('MIN', 2, 'full', 'full', 1, 100003)]
     for (op, procs, dl, sl, r, cc) in designed:
         for be in ('g', 'c'):
             cases.append((procs, be, be, dl, sl, op, r, cc, rng.randint(0, 9999)))
